@@ -27,6 +27,7 @@ import enum
 import fractions
 import functools
 import inspect
+import itertools
 import ipaddress
 import numbers
 import pathlib
@@ -534,9 +535,46 @@ def check_random_chain(c, col):
         col.sample({"object": name, "resolved": res.__name__})
 
 
+def check_unions(col):
+    """union-valued special forms: every union over a small pool of stdlib / user members and None, in both
+    spellings. isstdlibtype / isbuiltintype hold iff they hold for every non-None member (their documented
+    reading of a union); isoptionaltype iff None is a member at any position; isuniontype always."""
+    N = sys.modules[MOD].__dict__
+    pool = [("int", int), ("str", str), ("Decimal", decimal.Decimal), ("date", datetime.date), ("DC", N["DC"]),
+            ("MyStr", N["MyStr"]), ("E", N["E"]), ("Fraction", fractions.Fraction), ("None", type(None))]
+    import functools as _ft
+    import operator as _op
+    for k in (2, 3):
+        for combo in itertools.permutations(pool, k):
+            members = [m for _, m in combo]
+            for sp in ("Union", "pipe"):
+                U_ = typing.Union[tuple(members)] if sp == "Union" else _ft.reduce(_op.or_, members)
+                name = f"special:{sp}[{', '.join(n for n, _ in combo)}]"
+                real = [m for m in members if m is not type(None)]
+                wants = {"isstdlibtype": all(m in STDLIB for m in real), "isbuiltintype": None,
+                         "isoptionaltype": len(real) != len(members), "isuniontype": True,
+                         "isliteral": False, "isfinal": False, "isclassvartype": False, "isnonetype": False, "isforwardref": False}
+                for pname, want in wants.items():
+                    if want is None:
+                        continue
+                    col.ev()
+                    col.label("predicate:" + pname)
+                    col.nt(f"{pname}|{name}")
+                    r1, r2 = call(pname, U_)
+                    case = {"predicate": pname, "object": name}
+                    if r1[0] == "exc":
+                        col.violation("never-raises", case, f"{pname}({name}) raised {tl.exc_name(r1[1])}", bucket=f"{pname}|union")
+                    elif r2 != r1:
+                        col.violation("stable", case, f"{pname}({name}): {r1[1]!r} then {r2[1]!r}", bucket=pname)
+                    elif bool(r1[1]) != want:
+                        col.violation("agrees-with-runtime", case, f"{pname}({name}) = {r1[1]!r}, expected {want!r}", bucket=f"{pname}|union")
+    col.exhaustive_done = True
+
+
 def plan(tier, seed):
     shards = [{"kind": "catalogue", "lo": i, "step": 12} for i in range(12)]
     shards.append({"kind": "special"})
+    shards.append({"kind": "unions"})
     for i in range(3):
         shards.append({"kind": "chains", "seed": seed * 1000 + i, "n": 150 if tier == "quick" else 3000})
     return shards
@@ -546,6 +584,9 @@ def run_shard(shard, col):
     tl.clear_all()
     if shard["kind"] == "catalogue":
         check_catalogue(col, shard["lo"], shard["step"])
+    elif shard["kind"] == "unions":
+        catalogue()
+        check_unions(col)
     elif shard["kind"] == "special":
         catalogue()
         check_special(col)
@@ -562,6 +603,7 @@ def replay(clause, case, col):
     if case["object"].startswith(("special:", "spelling:", "instance:", "callable:")):
         catalogue()
         check_special(col)
+        check_unions(col)
     elif case["object"].startswith("chain:"):
         cat = [e for e in catalogue() if e["kind"] in ("class", "generic", "abc", "typing") and inspect.isclass(e["resolved"])]
         i = next(i for i, e in enumerate(cat) if e["name"] == case["base"])
